@@ -208,15 +208,16 @@ def accumulateFile (axis : Axis) (w : Option Nat) (ignore : Bool) (f : VFile) : 
   | some o', some fc' => some { f with obs := o', fcst := fc' }
   | _, _ => none
 
-/-- window.py -/
-def windowFile (I : Interval) (f : VFile) : Option VFile :=
-  match f.obs, f.fcst with
-  | some o, some fc =>
-    let leads : Vec := f.leads.map XR.fin
-    let tr (a : Arr3) : Arr3 :=
-      { a with cell := fun t l s => (windowSeries I leads (seriesLead a t s)).getD l .nan }
-    some { f with obs := some (tr o), fcst := some (tr fc) }
-  | _, _ => none
+/-- `calculate_window` on a whole field (along the lead-time axis) -/
+def window3 (I : Interval) (leads : Vec) (a : Arr3) : Arr3 :=
+  { a with cell := fun t l s => (windowSeries I leads (seriesLead a t s)).getD l .nan }
+
+/-- window.py: the fields that are present are turned into windows, an absent field (a verif file
+may hold only obs or only fcst) is not written, everything else is copied.  The script has no
+error exit of its own once the interval is built. -/
+def windowFile (I : Interval) (f : VFile) : VFile :=
+  let leads : Vec := f.leads.map XR.fin
+  { f with obs := f.obs.map (window3 I leads), fcst := f.fcst.map (window3 I leads) }
 
 /-- text2nc.py: times, lead times, location metadata, obs and fcst are written as read
 (the probabilistic columns are C10's subject) -/
